@@ -93,6 +93,24 @@ def _name_in(node, names):
     return isinstance(node, ast.Name) and node.id in names
 
 
+def _refers(node, names):
+    """the expression is the target, a view of its buffer, or a conditional that may be either"""
+    if _name_in(node, names) or _is_view_of(node, names):
+        return True
+    if isinstance(node, ast.IfExp):
+        return _refers(node.body, names) or _refers(node.orelse, names)
+    return False
+
+
+def _refname(node, names):
+    if isinstance(node, ast.Name):
+        return node.id
+    try:
+        return ast.unparse(node)
+    except Exception:  # noqa: BLE001
+        return "?"
+
+
 _AUG = {ast.Mult: "*=", ast.Add: "+=", ast.Sub: "-=", ast.Div: "/=", ast.FloorDiv: "//=", ast.Pow: "**=",
         ast.Mod: "%=", ast.BitAnd: "&=", ast.BitOr: "|=", ast.BitXor: "^=", ast.LShift: "<<=", ast.RShift: ">>=",
         ast.MatMult: "@="}
@@ -155,13 +173,13 @@ def events(fn, root, fallible, inplace_calls, extra_fallible_subscripts=()):
             # writes through calls ------------------------------------------------------
             tgt = None
             for kw in node.keywords:
-                if kw.arg == "out" and _name_in(kw.value, al):
-                    tgt = kw.value.id
-            if callee in ("np.copyto",) and node.args and _name_in(node.args[0], al):
-                out.append((end, 1, f"W:copyto({who(node.args[0].id)})"))
+                if kw.arg == "out" and _refers(kw.value, al):
+                    tgt = _refname(kw.value, al)
+            if callee in ("np.copyto",) and node.args and _refers(node.args[0], al):
+                out.append((end, 1, f"W:copyto({who(_refname(node.args[0], al))})"))
                 continue
-            if callee.startswith("np.") and len(node.args) >= 3 and _name_in(node.args[2], al) and tgt is None:
-                tgt = node.args[2].id  # positional out of a binary ufunc
+            if callee.startswith("np.") and len(node.args) >= 3 and _refers(node.args[2], al) and tgt is None:
+                tgt = _refname(node.args[2], al)  # positional out of a binary ufunc
             if tgt is not None:
                 out.append((end, 1, f"W:{callee}(out={who(tgt)})"))
                 continue
